@@ -821,3 +821,145 @@ Proof.
   intros H. apply lex_offsets in H. eapply Forall_impl; [|exact H].
   intros t (_ & L) K. rewrite K in L. now apply string_lexeme_unquote.
 Qed.
+
+(* ------------------------------------------------------------ where a lexical error points *)
+Lemma scan_tok_err_prefix plus s c consumed :
+  scan_tok plus s = SErr c consumed -> exists r, s = consumed ++ r.
+Proof.
+  unfold scan_tok. destruct s as [|c0 r0].
+  { intros H. inv H. exists "". reflexivity. }
+  destruct (is_ident_start c0). { destruct (span is_ident_char r0). discriminate. }
+  destruct (is_num c0 || is_c 45 c0) eqn:E1.
+  { assert (Hfn : forall k cls l s0, follow_num k cls l s0 = SErr c consumed -> consumed = l).
+    { intros k cls l s0. unfold follow_num. destruct s0 as [|a s0']; [discriminate|].
+      destruct (is_alnum a); [|discriminate]. intros H. now inv H. }
+    assert (Hxd : forall acc2 s2, lex_exp_digits acc2 s2 = SErr c consumed -> exists r, acc2 ++ s2 = consumed ++ r).
+    { intros acc2 s2. unfold lex_exp_digits. destruct s2 as [|d s3].
+      { intros H. inv H. eauto. }
+      destruct (is_c 48 d) eqn:Z.
+      { intros H. apply Hfn in H. subst consumed. apply zero_is in Z. subst d. exists s3. sa. }
+      destruct (is_num d); [|intros H; inv H; eauto].
+      destruct (span is_num s3) as [ds s4] eqn:S. apply span_sound in S. destruct S as (-> & _ & _).
+      intros H. apply Hfn in H. subst consumed. exists s4. sa. }
+    assert (Hex : forall k acc s0, lex_exp plus k acc s0 = SErr c consumed -> exists r, acc ++ s0 = consumed ++ r).
+    { intros k acc s0. unfold lex_exp.
+      assert (Hf : follow_num k 5 acc s0 = SErr c consumed -> exists r, acc ++ s0 = consumed ++ r).
+      { intros H. apply Hfn in H. subst. eauto. }
+      destruct s0 as [|e s1]; [exact Hf|].
+      destruct (is_c 101 e || is_c 69 e); [|exact Hf].
+      destruct s1 as [|g s2].
+      { intros H. apply Hxd in H. destruct H as (r & H). exists r. rewrite <- H. sa. }
+      destruct (is_c 45 g || plus && is_c 43 g).
+      - intros H. apply Hxd in H. destruct H as (r & H). exists r. rewrite <- H. sa.
+      - intros H. apply Hxd in H. destruct H as (r & H). exists r. rewrite <- H. sa. }
+    assert (Hfr : forall acc s0, lex_frac plus acc s0 = SErr c consumed -> exists r, acc ++ s0 = consumed ++ r).
+    { intros acc s0. unfold lex_frac. destruct s0 as [|c1 s1]; [apply Hex|].
+      destruct (is_c 46 c1) eqn:D; [|apply Hex]. apply is_c_true in D. subst c1.
+      destruct s1 as [|d s2].
+      { intros H. inv H. exists "". sa. }
+      destruct (is_num d).
+      2:{ intros H. inv H. exists (String d s2). sa. }
+      destruct (span is_num s2) as [ds s3] eqn:S. apply span_sound in S. destruct S as (-> & _ & _).
+      intros H. apply Hex in H. destruct H as (r & H). exists r. rewrite <- H. sa. }
+    assert (Hhx : forall pfx s0, lex_hex pfx s0 = SErr c consumed -> exists r, pfx ++ s0 = consumed ++ r).
+    { intros pfx s0. unfold lex_hex. destruct s0 as [|c1 s1].
+      { intros H. inv H. eauto. }
+      destruct (is_c 48 c1) eqn:Z.
+      { intros H. apply Hfn in H. subst consumed. apply zero_is in Z. subst c1. exists s1. sa. }
+      destruct (is_hexnum c1); [|intros H; inv H; eauto].
+      destruct (span is_hexnum s1) as [ds s2] eqn:S. apply span_sound in S. destruct S as (-> & _ & _).
+      intros H. apply Hfn in H. subst consumed. exists s2. sa. }
+    unfold lex_num.
+    assert (Hbody : forall sg s1, String c0 r0 = sg ++ s1 ->
+      match s1 with
+      | String c1 s2 =>
+          if is_c 48 c1 then
+            match s2 with
+            | String x s3 => if is_c 120 x then lex_hex (sg ++ "0x") s3 else lex_frac plus (sg ++ "0") s2
+            | EmptyString => lex_frac plus (sg ++ "0") s2
+            end
+          else if is_num c1 then let (ds, s3) := span is_num s2 in lex_frac plus (sg ++ String c1 ds) s3
+          else SErr 2 sg
+      | EmptyString => SErr 2 sg
+      end = SErr c consumed -> exists r, String c0 r0 = consumed ++ r).
+    { intros sg s1 -> H. destruct s1 as [|c1 s2].
+      { inv H. eauto. }
+      destruct (is_c 48 c1) eqn:Z.
+      - apply zero_is in Z. subst c1.
+        assert (Hf : forall s2', lex_frac plus (sg ++ "0") s2' = SErr c consumed ->
+                  exists r, sg ++ String "0" s2' = consumed ++ r).
+        { intros s2' H'. apply Hfr in H'. destruct H' as (r & H'). exists r. rewrite <- H'. sa. }
+        destruct s2 as [|x s3]; [now apply Hf|].
+        destruct (is_c 120 x) eqn:X; [|now apply Hf]. apply is_c_true in X. subst x.
+        apply Hhx in H. destruct H as (r & H). exists r. rewrite <- H. sa.
+      - destruct (is_num c1); [|inv H; eauto].
+        destruct (span is_num s2) as [ds s3] eqn:S. apply span_sound in S. destruct S as (-> & _ & _).
+        apply Hfr in H. destruct H as (r & H). exists r. rewrite <- H. sa. }
+    destruct (is_c 45 c0) eqn:M.
+    - apply is_c_true in M. subst c0. apply (Hbody "-" r0). reflexivity.
+    - apply (Hbody "" (String c0 r0)). reflexivity. }
+  destruct (is_c 39 c0) eqn:Q.
+  { unfold lex_string. destruct (str_loop r0) as [[a b]|]; [discriminate|].
+    intros H. inv H. exists "". now rewrite sapp_nil_r. }
+  destruct (is_c 125 c0) eqn:E3.
+  { apply is_c_true in E3. subst c0. destruct r0 as [|c2 r2].
+    - intros H. inv H. eexists; reflexivity.
+    - destruct (is_c 125 c2); [discriminate|]. intros H. inv H. eexists; reflexivity. }
+  unfold lex_opt_eq, lex_double, lex_char.
+  repeat match goal with
+  | |- (if is_c ?n c0 then _ else _) = _ -> _ =>
+      let E := fresh "E" in destruct (is_c n c0) eqn:E
+  end;
+  try (destruct r0 as [|c2 r2]; [|destruct (is_c 61 c2)]; discriminate);
+  try (destruct r0 as [|c2 r2]; [|destruct (Ascii.eqb c2 c0)]; try discriminate; intros H; inv H; eexists; reflexivity);
+  try discriminate.
+Qed.
+
+(* offsets of everything a run reports stay inside the source *)
+Definition fin_bounds (n : N) (f : lex_fin) : Prop :=
+  match f with
+  | FEnd p a => (t_off p + 2 = t_off a /\ t_off a <= n)%N
+  | FErr e endp => (t_off endp <= t_off (le_pos e) /\ t_off (le_pos e) <= n)%N
+  | FFuel => True
+  end.
+
+Ltac offs := repeat match goal with |- context [t_off (adv_str ?p ?s)] => rewrite (t_off_adv_str p s) end.
+
+Lemma lex_run_bounds plus whole fuel : forall st ts f pre,
+  whole = pre ++ ls_rest st -> t_off (ls_pos st) = N.of_nat (String.length pre) ->
+  lex_run plus fuel st = (ts, f) ->
+  Forall (fun t => (tk_off t < N.of_nat (String.length whole))%N) ts /\
+  fin_bounds (N.of_nat (String.length whole)) f.
+Proof.
+  induction fuel as [|fuel IH]; intros st ts f pre EW EO H.
+  { inv H. split; constructor. }
+  cbn [lex_run] in H. rewrite lex_next_unfold in H.
+  destruct (span is_ws (ls_rest st)) as [w s1] eqn:S.
+  apply span_sound in S. destruct S as (ER & _ & _).
+  cbn zeta in H. destruct (scan_tok plus s1) as [k lx rest|lx rest|c consumed] eqn:T.
+  - destruct (lex_run plus fuel (mkLS rest (adv_str (adv_str (ls_pos st) w) lx))) as [ts' f'] eqn:R.
+    inv H. apply scan_tok_sound in T. destruct T as (-> & L & _).
+    destruct (lexeme_head _ _ _ _ L) as (c & r & -> & _).
+    apply (IH _ _ _ ((pre ++ w) ++ String c r)) in R.
+    + destruct R as (B1 & B2). split; [|exact B2].
+      constructor; [|exact B1]. unfold tk_off. cbn [tk_pos].
+      offs. rewrite EO, ER, !slen_app. cbn [String.length]. lia.
+    + cbn. rewrite ER. now rewrite !sapp_assoc.
+    + cbn [ls_pos]. offs. rewrite EO, !slen_app. cbn [String.length]. lia.
+  - inv H. apply scan_tok_end in T. destruct T as (-> & ->).
+    split; [constructor|]. cbn [fin_bounds ls_pos]. split.
+    + offs. cbn. lia.
+    + offs. rewrite EO, ER, !slen_app. cbn [String.length]. lia.
+  - inv H. apply scan_tok_err_prefix in T. destruct T as (r & ->).
+    split; [constructor|]. cbn [fin_bounds le_pos]. split.
+    + offs. lia.
+    + offs. rewrite EO, ER, !slen_app. lia.
+Qed.
+
+Theorem lex_all_bounds plus src ts f : lex_all plus src = (ts, f) ->
+  Forall (fun t => (tk_off t < N.of_nat (String.length src))%N) ts /\
+  fin_bounds (N.of_nat (String.length src)) f.
+Proof.
+  unfold lex_all. intros H.
+  exact (lex_run_bounds plus src (S (String.length src)) (mkLS src pos0) ts f "" eq_refl eq_refl H).
+Qed.
